@@ -65,6 +65,11 @@ func GenRandom(r *hx.Rand, maxLen int) Input {
 			st.Op = "timer"
 		case x < 64:
 			st.Op = "flush"
+			// the context of a forced flush: live, already cancelled, expiring (drawn from a fork so
+			// that the rest of the schedule does not depend on it)
+			if cr := r.Fork(0xC7); cr.Bool() {
+				st.Ctx = cr.Range(1, 2)
+			}
 		case x < 80:
 			st.Op, st.Ok, st.Newest = "release", !faulty || r.Chance(3, 4), r.Bool()
 		case x < 85:
@@ -90,6 +95,9 @@ func GenRandom(r *hx.Rand, maxLen int) Input {
 			st.Op, st.K = "sendfail", r.Range(1, 4)
 		case x < 95:
 			st.Op = "teardown"
+			if cr := r.Fork(0xC7); cr.Chance(1, 4) {
+				st.Ctx = cr.Range(1, 2) // a force-stopped pipeline tears down with a cancelled context
+			}
 			if r.Bool() {
 				// a graceful stop with records read beyond the last ack
 				in.Steps = append(in.Steps, Step{Op: "read", S: st.S, K: r.Range(1, 3)}, Step{Op: "stop", S: st.S})
@@ -124,6 +132,26 @@ func GenRandom(r *hx.Rand, maxLen int) Input {
 		}
 		in.Steps = append(pre, Shape(kind, in.Gated, r.Intn(in.NSrc), r)...)
 		in.TdShort = false
+	} else if sr := r.Fork(0x5C); sr.Chance(1, 8) {
+		// shape 3 (drawn from a fork: the schedules above stay what they were): harmless letters,
+		// then a forced flush with a dead context behind a slow commit, commits released out of order
+		in.Gated, in.Bundle, in.TdShort = true, 10000, false
+		keep := sr.Intn(4)
+		if keep > len(in.Steps) {
+			keep = len(in.Steps)
+		}
+		pre := in.Steps[:keep:keep]
+		for i := range pre {
+			switch pre[i].Op {
+			case "teardown", "failset", "failtx", "sendfail", "holdsend":
+				pre[i] = Step{Op: "ack", S: pre[i].S, K: 1}
+			case "release":
+				pre[i].Ok = true
+			}
+		}
+		// nothing may be left in flight when the shape begins
+		pre = append(pre, Step{Op: "release", Ok: true}, Step{Op: "release", Ok: true})
+		in.Steps = append(pre, Shape(3, true, sr.Intn(in.NSrc), sr)...)
 	}
 	return in
 }
@@ -139,6 +167,13 @@ func GenRandom(r *hx.Rand, maxLen int) Input {
 //	1 a slow commit, two flush triggers during it, a further ack + flush, the later commits
 //	  finishing first (what a persister that lets flushes overlap turns into a stored position
 //	  that moves backwards)
+//	3 a slow commit, a later ack of the same source, then a FORCED flush (Persister.Flush or
+//	  Source.Teardown) whose context is already cancelled or expires while it waits behind the slow
+//	  commit; then the commits are released newest first. On a store where blind writes of two
+//	  transactions both commit (last commit wins: Badger, and the gated store here) any forced flush
+//	  that does not stay serialised behind the write in flight - because it gives up waiting on
+//	  ctx.Done(), bounds the wait by a deadline, or skips it for "shutdown" callers - lets the older
+//	  snapshot overwrite the newer one after the plugin was told about the newer one.
 func Shape(kind int, gated bool, s int, r *hx.Rand) []Step {
 	rel := func(ok, newest bool) []Step {
 		if !gated {
@@ -178,6 +213,29 @@ func Shape(kind int, gated bool, s int, r *hx.Rand) []Step {
 		newest := r == nil || r.Bool()
 		add(Step{Op: "release", Ok: true, Newest: newest})             // one of the two overlapping writes
 		add(Step{Op: "release", Ok: true, Newest: true})               // the newest write first ...
+		add(Step{Op: "release", Ok: true, Newest: true})
+		add(Step{Op: "release", Ok: true}, Step{Op: "release", Ok: true}) // ... the older ones last
+	case 3:
+		// only meaningful on a gated store
+		pick := func(n int) int {
+			if r == nil {
+				return 0
+			}
+			return r.Intn(n)
+		}
+		ctx := 1 + pick(2)
+		add(Step{Op: "ack", S: s, K: 1 + pick(2)}, trig()) // W1 parks
+		add(Step{Op: "ack", S: s, K: 1})                   // a newer position of the same source
+		switch pick(3) {
+		case 0, 1:
+			add(Step{Op: "flush", Ctx: ctx}) // must wait for W1 whatever its context says
+			if pick(2) == 1 {
+				add(Step{Op: "ack", S: s, K: 1}, Step{Op: "flush", Ctx: 3 - ctx})
+			}
+		case 2:
+			add(Step{Op: "teardown", S: s, Ctx: ctx}) // Teardown's forced flush, force-stop context
+		}
+		add(Step{Op: "release", Ok: true, Newest: true}) // the newest write first ...
 		add(Step{Op: "release", Ok: true, Newest: true})
 		add(Step{Op: "release", Ok: true}, Step{Op: "release", Ok: true}) // ... the older ones last
 	}
